@@ -663,3 +663,58 @@ func VerifClosedConn(local bool, n int) int {
 	}
 	return replies
 }
+
+// ---------------------------------------------------------------- accessors for the end-to-end driver
+
+// VerifRouting returns the number of routing entries (connection IDs) and stateless-reset tokens.
+func (t *Transport) VerifRouting() (handlers, tokens int) {
+	t.mutex.Lock()
+	defer t.mutex.Unlock()
+	return len(t.handlers), len(t.resetTokens)
+}
+
+type VerifIdleState struct {
+	Now, LastRcv, FirstAE, Creation   int64
+	IdleTimeout, PTO, KeepAliveInterval time.Duration
+	KeepAlivePeriod                   time.Duration
+	KeepAlivePingSent, HandshakeComplete bool
+}
+
+// VerifIdleState reads the idle-timeout inputs of a connection. Only meaningful while the connection's
+// run loop is parked or after it has ended (the driver calls it inside a synctest bubble after Wait).
+func (c *Conn) VerifIdleState() VerifIdleState {
+	return VerifIdleState{
+		Now:               int64(monotime.Now()),
+		LastRcv:           int64(c.lastPacketReceivedTime),
+		FirstAE:           int64(c.firstAckElicitingPacketAfterIdleSentTime),
+		Creation:          int64(c.creationTime),
+		IdleTimeout:       c.idleTimeout,
+		PTO:               c.rttStats.PTO(true),
+		KeepAliveInterval: c.keepAliveInterval,
+		KeepAlivePeriod:   c.config.KeepAlivePeriod,
+		KeepAlivePingSent: c.keepAlivePingSent,
+		HandshakeComplete: c.handshakeComplete,
+	}
+}
+
+func VerifMonoNow() int64 { return int64(monotime.Now()) }
+
+// VerifQueueBadFrame makes this endpoint send a frame the peer must answer with a fatal transport error.
+//
+//	0: MAX_STREAMS above 2^60 (FRAME_ENCODING_ERROR)   1: HANDSHAKE_DONE / NEW_TOKEN in the wrong direction (PROTOCOL_VIOLATION)
+//	2: MAX_STREAM_DATA for a stream the peer has not opened (STREAM_STATE_ERROR)
+func (c *Conn) VerifQueueBadFrame(kind int) {
+	switch kind {
+	case 0:
+		c.queueControlFrame(&wire.MaxStreamsFrame{Type: protocol.StreamTypeBidi, MaxStreamNum: 1 << 61})
+	case 1:
+		if c.perspective == protocol.PerspectiveClient {
+			c.queueControlFrame(&wire.HandshakeDoneFrame{})
+			return
+		}
+		fallthrough
+	default:
+		id := protocol.StreamNum(900).StreamID(protocol.StreamTypeBidi, c.perspective.Opposite())
+		c.queueControlFrame(&wire.MaxStreamDataFrame{StreamID: id, MaximumStreamData: 1 << 20})
+	}
+}
